@@ -433,7 +433,6 @@ func looksNumeric(s string) bool {
 	return err == nil
 }
 
-
 // qname is the table name as dumps and lock names show it: qualified when the table lives in another schema
 func (t *Table) qname() string {
 	if t.Schema != "" {
